@@ -1353,6 +1353,11 @@ func c13Der(r *core.Run, p *core.Program) {
 			r.Fail(rule, key, p.Pos(f.Pos()), fmt.Sprintf("%d big-integer serialisations, 2 expected (r and s)", len(ints)))
 			continue
 		}
+		// which of the two is r: by where the number comes from (first / second result of the signing call,
+		// field R / S of a signature), not by the order in which the two are serialised
+		if c13IntRole(ints[0]) == 1 && c13IntRole(ints[1]) == 0 {
+			ints[0], ints[1] = ints[1], ints[0]
+		}
 		padded := 0
 		var final [2]*ssa.Phi
 		for k, ic := range ints {
@@ -1582,4 +1587,36 @@ func c13FreshHere(v ssa.Value) bool {
 		n++
 	}
 	return n > 0
+}
+
+// c13IntRole: 0 when the big integer serialised by this Bytes() call is r, 1 when it is s, -1 when unknown.
+func c13IntRole(c *ssa.Call) int {
+	if len(c.Call.Args) == 0 {
+		return -1
+	}
+	v := c.Call.Args[0]
+	for d := 0; d < 6; d++ {
+		switch x := v.(type) {
+		case *ssa.Extract:
+			if x.Index == 0 || x.Index == 1 {
+				return x.Index
+			}
+			return -1
+		case *ssa.FieldAddr:
+			switch an.FieldNameOf(x) {
+			case "R":
+				return 0
+			case "S":
+				return 1
+			}
+			v = x.X
+		case *ssa.UnOp:
+			v = x.X
+		case *ssa.ChangeType:
+			v = x.X
+		default:
+			return -1
+		}
+	}
+	return -1
 }
